@@ -24,6 +24,9 @@ matchers of `TaintRuleApplier` plus `TaintAnalysis.find_sources` / `find_sinks`
                     the sink rules, as the `find_sinks` matchers do (pinned: by name only)
   fieldReadLoc    — whether `apply_field_read_source_rules` applies the unit / line restrictions
                     (pinned: access path only)
+  codeSinkSymOnly — whether the `sink_from_code` branch of `get_sink_tag_by_rules` consults SYMBOL
+                    predecessors only (pinned: every predecessor, so the state id of a literal
+                    operand — a STATE_IS_USED predecessor — was looked up in the SYMBOL table)
 
 No imports outside LianVerif.Model: linked into `lvdrv`.
 -/
@@ -83,16 +86,17 @@ structure Variant where
   codeSinkUnit : Bool
   sinkTagLoc : Bool
   fieldReadLoc : Bool
+  codeSinkSymOnly : Bool
 deriving Repr, Inhabited
 
 /-- the pinned commit (frozen; documents the findings). -/
 def pinned : Variant :=
   { callSrcPos := -1, checkLang := false, resetTargetPos := false, codeSinkUnit := false,
-    sinkTagLoc := false, fieldReadLoc := false }
+    sinkTagLoc := false, fieldReadLoc := false, codeSinkSymOnly := false }
 /-- the code as it is in the repo now (after the `fix:` commits). -/
 def current : Variant :=
   { callSrcPos := 0, checkLang := true, resetTargetPos := true, codeSinkUnit := true,
-    sinkTagLoc := true, fieldReadLoc := true }
+    sinkTagLoc := true, fieldReadLoc := true, codeSinkSymOnly := true }
 
 /-- extracted from the live code: the literal list in `apply_propagation_rules`. -/
 structure Params where
